@@ -133,3 +133,49 @@ func Verif_C01_W2_InMemoryBlock() {
 	ib := block.(*inMemoryBlock)
 	verifAdjacentObjects(block, 2, 5, 2, func() []byte { return ib.data }, 0, nil)
 }
+
+// verifYieldingDevice: device writes take time - another goroutine may run between the
+// moment a writer decided what to write and the moment the bytes reach the medium.
+type verifYieldingDevice struct{ *verifDevice }
+
+func (d verifYieldingDevice) WriteAt(p []byte, off int64) (int, error) {
+	// the device takes the data as it is when the call is made and applies it some time later
+	inFlight := append([]byte(nil), p...)
+	vnd.Yield()
+	return d.verifDevice.WriteAt(inFlight, off)
+}
+
+// Verif_C01_W1c_SharedSectorRace: two adjacent objects that share a sector are written
+// by two goroutines under every schedule (<= 2 preemptions), with device writes that
+// yield: whichever sector image reaches the medium last contains both objects' bytes
+// (the per-sector lock must cover the device write, not only the merge in memory).
+func Verif_C01_W1c_SharedSectorRace() {
+	vnd.ExploreSchedules(true)
+	const S, blockSectors = 4, 2
+	inner := &verifDevice{image: make([]byte, blockSectors*S), sector: S, hi: blockSectors * S}
+	pa := NewBlockDeviceBackedBlockAllocator(verifYieldingDevice{inner}, verifPlainFactory{}, S, blockSectors, 1, "verif")
+	block, _, err := pa.NewBlock()
+	vnd.Assert(err == nil, "allocation of a free block failed")
+	sizes := [][2]int{{2, 2}, {1, 4}, {3, 3}}[vnd.Choose(3)]
+	a := &verifObject{n: sizes[0], data: vnd.Bytes(sizes[0]), digest: verifTrustDigest(sizes[0]), maxCuts: 0}
+	b := &verifObject{n: sizes[1], data: vnd.Bytes(sizes[1]), digest: verifTrustDigest(sizes[1]), maxCuts: 0}
+	a.writer = block.Put(int64(a.n))
+	b.writer = block.Put(int64(b.n))
+	done := make(chan struct{})
+	go func() {
+		verifRunWriter(b)
+		close(done)
+	}()
+	verifRunWriter(a)
+	<-done
+	vnd.Assert(a.err == nil && b.err == nil, "writing an object that was allocated within the block failed")
+	vnd.Assert(a.off == 0 && b.off == int64(a.n), "objects not placed back to back")
+	for j := 0; j < a.n; j++ {
+		vnd.Assert(inner.image[j] == a.data[j], "a byte of the first object is not at its own offset on the medium after both uploads completed (shared sector written by two writers)")
+	}
+	for j := 0; j < b.n; j++ {
+		vnd.Assert(inner.image[a.n+j] == b.data[j], "a byte of the second object is not at its own offset on the medium after both uploads completed (shared sector written by two writers)")
+	}
+	vnd.Assert(!inner.misaligned && !inner.outside, "a device write was misaligned or outside the block")
+	vnd.Cover("w1c-done")
+}
